@@ -182,7 +182,7 @@ func c15RunArchive(t testing.TB, tr *verifkit.Trace, base string, n int, sizeMax
 		t.Fatal(err)
 	}
 	opts := Options{Archive: apath, Name: "repo", Branch: "HEAD", Strip: sc.Strip}
-	bopts := index.Options{IndexDir: idx, SizeMax: sizeMax, DisableCTags: true}
+	bopts := index.Options{IndexDir: idx, SizeMax: sizeMax, DisableCTags: true, ShardMax: 1 << 20, Parallelism: 1}
 	out := ingest.Run(idx, table, func() error { return Index(opts, bopts) })
 	tr.Emit(verifkit.M{"ev": "archive", "sizemax": sizeMax, "format": sc.Format, "strip": sc.Strip, "cut": cut,
 		"bytes": len(data), "members": sc.Members, "out": out})
